@@ -422,3 +422,16 @@ impl TransformerContext {
         }
     }
 }
+
+#[cfg(feature = "verif-hooks")]
+impl TransformerContext {
+    /// (scope stack height, element stack height, depth counter, in-specs flag)
+    pub fn verif_probe(&self) -> (usize, usize, u32, bool) {
+        (
+            self.scope_stack.len(),
+            self.element_stack.len(),
+            self.current_depth,
+            self.in_specs,
+        )
+    }
+}
